@@ -11,6 +11,8 @@ from ..lib import FAILED
 from ..runner import Sub
 
 ID = 'C11'
+TECHNIQUE = "PBT + exhaustive gap lattice against reference linkage rules (exact rational walk along the implementation's labels)"
+LEVEL_TEXT = 'Exploration: Exact for single/complete incl. ties; centroid/average decisions inside the rounding slack are ambiguous. Finds counter-examples (shrunk to a replay file); never proves absence.'
 RULE = ('Cases = (strictly increasing x: integers, dyadics, floats, n in 2..40|300; arbitrary y; t > 0 drawn '
         'among distances that occur in this x (exact ties), midpoints, 0.01, 0.2, > 1).  Oracle = reference '
         'models of the four rules written from the statement; single/complete use the identical float '
